@@ -30,15 +30,25 @@ def reader_population(n, seed, ndims=(2, 3), payloads=("random", "special", "ext
             g.update(bf=1, maxsz=1, base_blocks=(10, 12) if nd == 2 else (5, 5), nlevels=min(nl, 2),
                      nfiles=[1, 40][(i // 16) % 2], nfields=min(g["nfields"], 3))
         if i % 16 == 3:       # six-digit binary file numbers (Cell_D_100007: what a level with 100000+ files has)
-            g["file_id_base"] = 100000
+            g["file_id_base"] = [100000, "mixed"][(i // 16) % 2]      # "mixed": five- and six-digit numbers at one level
+            if g["file_id_base"] == "mixed" and g.get("nfiles", 2) < 2:
+                g["nfiles"] = 2
         if i % 16 == 11:      # the same geometry in micrometres / nanometres (tiny cells in absolute terms)
             g["length_scale"] = [1e-6, 1e-9][(i // 16) % 2]
         if i % 16 == 5:       # far from the origin: coordinate / cell size of 1e5 .. 1e7
             g["origin"] = [rng.choice([1.0e5, -3.0e5, 2.5e6]) for _ in range(nd)]
+        if i % 16 == 1:       # negative whole-number bounds: "%.17g" writes them without a decimal point ("-1 -2 3")
+            g["origin"] = [-1.0, -2.0, 3.0][:nd]
         if i % 16 == 9 and max_fields >= 8:      # as many fields as real output has; 3-digit component counts
             g["nfields"] = [38, 101][(i // 16) % 2]
         f = dict(ref_ratio_extra=rng.choice([0, 0, 1, 3]), trailing_blank=rng.random() < 0.7,
                  close_blank=rng.random() < 0.3, floatfmt=rng.choice(["repr", "17g"]))
+        if i % 16 == 12:      # level directories under another prefix than the default (the Header says where they are)
+            f["level_prefix"] = ["Lev_", "amr_level_"][(i // 16) % 2]
+        if i % 9 == 4:
+            f["path_blank"] = True
+        if i % 9 == 7:
+            f["final_newline"] = False
         c = {"gen": g, "fmt": f}
         if i % 16 == 7:       # reached through `<symlinked directory>/../<name>`; every other one with a decoy plotfile
             c["reach"] = ["link_dotdot_decoy", "link_dotdot"][(i // 16) % 2]      # where the path collapses lexically
@@ -71,7 +81,7 @@ def to_store(path, level_links=False):
     differently named directories. What the plotfile states is unchanged: every listed name opens the
     same bytes as before."""
     store = path + "_store"
-    for lvd in sorted(d for d in os.listdir(path) if d.startswith("Level_")):
+    for lvd in sorted(d for d in os.listdir(path) if os.path.isdir(os.path.join(path, d))):
         phys = os.path.join(path, lvd)
         if level_links:
             bulk = os.path.join(path + "_bulk", "run7_" + lvd.lower().replace("_", ""))
